@@ -36,6 +36,8 @@ for _reach in ("never-attached", "delete-obj", "delete-pos"):
     for _side in ("col1", "col2"):
         for _inl in ("inline", "block"):
             CELLS.append(f"endpoint-detached/{_reach}/{_side}/{_inl}")
+for _side in ("col1", "col2"):
+    CELLS.append(f"endpoint-detached/aliased-list/{_side}/block")
 for _reach in ("ctor", "moved-column", "assign-list", "ctor-twin-table"):
     for _side in ("col1", "col2"):
         for _inl in ("inline", "block"):
@@ -221,6 +223,32 @@ class C17Engine(C10.C10Engine):
                     if added:
                         rdb.refs[:] = [x for x in rdb.refs if x is not o]
                         o.database = None
+                return
+            if reach == "aliased-list":
+                # the caller passes a table's own column list to the constructor, later a column is deleted
+                ta = g.choice(tables)
+                n = len(m[ta]["cols"])
+                others = [t for t in tables if t != ta and len(m[t]["cols"]) >= n]
+                if not others:
+                    raise Skip
+                tb = g.choice(others)
+                lst = real[ta].columns
+                other = [real[x] for x in m[tb]["cols"][:n]]
+                o = C.Reference(g.choice([">", "<", "-"]), lst if side == "col1" else other, other if side == "col1" else lst)
+                k = g.randrange(n)
+                h = m[ta]["cols"][k]
+                try:
+                    o.sql  # consistent before the deletion
+                except Exception:
+                    pass
+                real[ta].delete_column(real[h])
+                try:
+                    self.expect_raises(cell, "ref.sql", lambda: o.sql, TNF, ctx)
+                    self.expect_raises(cell, "ref.dbml", lambda: o.dbml, TNF, ctx)
+                finally:
+                    real[ta].add_column(real[h])
+                    m[ta]["cols"].remove(h)
+                    m[ta]["cols"].append(h)
                 return
             # a reference of the database loses an endpoint column through delete_column
             cand = [r for r in d["refs"] if m[r]["inline"] == inl or True]
